@@ -511,24 +511,127 @@ def instant(draw, h_us, lo_us, hi_us):
     return draw(go.uniform_int(lo_us, hi_us))
 
 
-def run_library(c0, d0, h_us, n, mans):
-    """Grid states of KeplerNum(rk4): list of n + 1 cartesian arrays."""
+SCALES = ["UTC", "UTC", "UTC", "TT", "TAI", "GPS", "UT1", "TDB"]
+DV_AS = ["list", "list", "tuple", "array", "f32", "int"]
+_moon = {}
+
+
+@st.composite
+def spellings(draw, nmans, bodies=("Earth", "Earth", "Earth", "Earth", "Moon"), methods=("rk4", "rk4", "euler")):
+    """Other spellings of the same physical input (default = how the facets were first written)."""
+    if draw(st.integers(0, 2)) == 0:
+        return dict()
+    return dict(scale0=draw(st.sampled_from(SCALES)), scale_stop=draw(st.sampled_from(["UTC", "TT", "TAI", "GPS"])),
+                man_scales=[draw(st.sampled_from(SCALES)) for _ in range(nmans)],
+                dv_as=[draw(st.sampled_from(DV_AS)) for _ in range(nmans)],
+                mans_as=draw(st.sampled_from(["list", "tuple", "single"])),
+                clone=draw(st.sampled_from(["none", "none", "copy", "pickle"])),
+                method=draw(st.sampled_from(methods)), form0=draw(st.sampled_from(["cartesian", "keplerian", "equinoctial"])),
+                stop_as=draw(st.sampled_from(["date", "timedelta"])), body=draw(st.sampled_from(bodies)))
+
+
+def epoch_of(case, sp):
+    """start of the propagation under its label.  change_scale rounds UT1 / TDB readings to the microsecond, so the
+    relabelled date is the reference instant from which maneuver dates and the stop are counted."""
+    return relabel(mkdate(case["t0"]), (sp or {}).get("scale0"))
+
+
+def relabel(date, scale):
+    return date if scale in (None, "UTC") else date.change_scale(scale)
+
+
+def dv_spelling(vec, how):
+    """(object handed to the library, the numbers it stands for)"""
+    vec = [float(x) for x in vec]
+    if how == "tuple":
+        return tuple(vec), vec
+    if how == "array":
+        return np.array(vec), vec
+    if how == "f32":
+        a = np.array(vec, dtype=np.float32)
+        return a, [float(x) for x in a]
+    if how == "int" and max(abs(x) for x in vec) >= 1.0:
+        iv = [int(round(x)) for x in vec]
+        return iv, [float(x) for x in iv]
+    return list(vec), vec
+
+
+def mu_of_body(body):
+    from beyond import constants
+
+    return getattr(constants, body).mu
+
+
+def body_and_frame(body):
+    from beyond.env.solarsystem import get_body, get_frame
+
+    if body == "Earth":
+        return get_body("Earth"), "EME2000"
+    if body not in _moon:
+        _moon[body] = get_frame(body)       # one registration per process
+    return get_body(body), _moon[body]
+
+
+def spelling_classes(sp):
+    if not sp:
+        return ["spelling:default"]
+    out = [f"scale0:{sp['scale0']}", f"mans_as:{sp['mans_as']}", f"method:{sp['method']}", f"body:{sp['body']}",
+           f"form0:{sp['form0']}", f"stop_as:{sp['stop_as']}"]
+    if sp["clone"] != "none":
+        out.append(f"clone:{sp['clone']}")
+    out += [f"dv_as:{x}" for x in sp["dv_as"]] + [f"man_scale:{x}" for x in sp["man_scales"]]
+    return out
+
+
+def free_step(y, h, mu, method):
+    """one maneuver-free step of the documented fixed-step methods"""
+    if method == "euler":
+        y = np.asarray(y, float)
+        r = y[:3]
+        a = -mu * r / float(np.linalg.norm(r)) ** 3
+        return y + h * np.concatenate([y[3:], a])
+    return np.asarray(ig.rk4_step(y, h, mu))
+
+
+def run_library(c0, d0, h_us, n, mans, sp=None):
+    """Grid states of KeplerNum (rk4 unless the spelling says euler): list of n + 1 cartesian arrays."""
+    import pickle
+
     from beyond.dates import timedelta
-    from beyond.env.solarsystem import get_body
-    from beyond.orbits import Orbit
+    from beyond.orbits import Orbit, StateVector
     from beyond.propagators.keplernum import KeplerNum
 
+    sp = sp or {}
+    body, frame = body_and_frame(sp.get("body", "Earth"))
     step = timedelta(microseconds=h_us)
-    orb = Orbit(c0, d0, "cartesian", "EME2000", KeplerNum(step, get_body("Earth"), method="rk4"))
-    orb.maneuvers = mans
-    stop = d0 + timedelta(microseconds=h_us * n)
+    kw = {} if frame == "EME2000" else dict(frame=frame)
+    start = d0      # (already relabelled by the caller: see epoch_of)
+    sv = StateVector(c0, start, "cartesian", frame)
+    if sp.get("form0", "cartesian") != "cartesian":
+        sv = sv.copy(form=sp["form0"])
+    orb = Orbit(sv.base, start, sv.form, frame, KeplerNum(step, body, method=sp.get("method", "rk4"), **kw))
+    how = sp.get("mans_as", "list")
+    if how == "single" and len(mans) == 1:
+        orb.maneuvers = mans[0]
+    elif how == "tuple":
+        orb.maneuvers = tuple(mans)
+    else:
+        orb.maneuvers = list(mans)
+    if sp.get("clone") == "copy":
+        orb = orb.copy()
+    elif sp.get("clone") == "pickle":
+        orb = pickle.loads(pickle.dumps(orb))
+    if sp.get("stop_as") == "timedelta":
+        stop = timedelta(microseconds=h_us * n)
+    else:
+        stop = relabel(d0 + timedelta(microseconds=h_us * n), sp.get("scale_stop"))
     out = []
     for k, o in enumerate(orb.iter(stop=stop)):
         y = np.array(o.base, float)
         if not np.all(np.isfinite(y)):
             raise Violation("propagation-nonfinite", f"state {k} of the propagation with maneuvers is {y.tolist()}")
         off = (o.date - d0).total_seconds() - k * h_us / 1e6
-        if abs(off) > 1e-6:
+        if abs(off) > 2.5e-6:     # dates are kept to the microsecond; a UT1 / TDB label costs one more
             raise Violation("grid-date", f"point {k} is dated {off:+.3g} s off the integration grid")
         out.append(y)
     if len(out) != n + 1:
@@ -549,8 +652,8 @@ def vperp(y):
     return float(np.linalg.norm(np.cross(y[:3], y[3:])) / np.linalg.norm(y[:3]))
 
 
-def defects(ys, h, mu):
-    return [ys[j + 1] - np.asarray(ig.rk4_step(ys[j], h, mu)) for j in range(len(ys) - 1)]
+def defects(ys, h, mu, method="rk4"):
+    return [ys[j + 1] - free_step(ys[j], h, mu, method) for j in range(len(ys) - 1)]
 
 
 def theta_of(ys, j, h, mu=None):
@@ -574,6 +677,20 @@ def quiet_tol(y):
 
 
 @st.composite
+def epochs(draw, span_us):
+    """start of a propagation, microseconds from 2020-01-01: anywhere in 5 years, or such that the span crosses a UTC
+    midnight or the turn of a year (2020 is a leap year: day 366 included)"""
+    k = draw(st.integers(0, 9))
+    day = 86400 * 10**6
+    if k < 6:
+        return draw(go.uniform_int(0, 5 * 365 * day))
+    frac = draw(go.uniform(0.02, 0.98))
+    if k < 9:
+        return draw(st.integers(1, 1800)) * day - int(frac * span_us)
+    return draw(st.sampled_from([366, 366 + 365, 366 + 730])) * day - int(frac * span_us)
+
+
+@st.composite
 def impulse_case(draw):
     hyp = draw(st.integers(0, 9)) < 2
     el = draw(go.elements(elliptic=not hyp, hyperbolic=hyp, emax_ell=0.9, rp_range=(1.03, 8.0), hmax=1.5, emax_hyp=4.0))
@@ -586,17 +703,22 @@ def impulse_case(draw):
         else:
             m.update(kind="imp", dv=draw(vec3()), tag=draw(st.sampled_from(TAGS)))
         mans.append(m)
-    return dict(el=el, h_us=h_us, n=n, t0=draw(go.uniform_int(0, 5 * 365 * 86400 * 10**6)), mans=mans)
+    return dict(el=el, h_us=h_us, n=n, t0=draw(epochs(n * h_us)), mans=mans, sp=draw(spellings(len(mans))))
 
 
 def check_impulse(case):
     from beyond.dates import timedelta
     from beyond.orbits.man import ImpulsiveMan, KeplerianImpulsiveMan
 
-    mu = mu_earth()
+    sp = case.get("sp") or {}
+    body = sp.get("body", "Earth")
+    method = sp.get("method", "rk4")
+    mu = mu_of_body(body)
     el = case["el"]
+    if body != "Earth":
+        el = dict(el, a=el["a"] * go.RADIUS[body] / go.RADIUS["Earth"])     # same shape, sized for the other body
     c0 = cart(el, mu)
-    d0 = mkdate(case["t0"])
+    d0 = epoch_of(case, sp)
     h_us, n = case["h_us"], case["n"]
     h = h_us / 1e6
     cap = dv_cap(c0, n * h, mu)
@@ -606,14 +728,21 @@ def check_impulse(case):
         case = dict(case, mans=[dict(m, dv=[x * cap / tot_dv for x in m["dv"]]) if m["kind"] == "imp" else m
                                 for m in case["mans"]])
     mans = []
-    for m in case["mans"]:
-        date = d0 + timedelta(microseconds=m["t"])
+    specs = []
+    for i, m in enumerate(case["mans"]):
+        date = relabel(d0 + timedelta(microseconds=m["t"]), (sp.get("man_scales") or [None] * 9)[i])
         if m["kind"] == "imp":
-            mans.append(ImpulsiveMan(date, list(m["dv"]), frame=m["tag"]))
+            obj, numbers = dv_spelling(m["dv"], (sp.get("dv_as") or ["list"] * 9)[i])
+            mans.append(ImpulsiveMan(date, obj, frame=m["tag"]))
+            if isinstance(obj, np.ndarray):
+                obj += 1.0                  # the caller's array is not kept by reference
+            specs.append(dict(m, dv=numbers))
         else:
             mans.append(KeplerianImpulsiveMan(date, da=m["da"]))
-    ys = run_library(c0, d0, h_us, n, mans)
-    res = defects(ys, h, mu)
+            specs.append(m)
+    case = dict(case, mans=specs)
+    ys = run_library(c0, d0, h_us, n, mans, sp)
+    res = defects(ys, h, mu, method)
     # steps in which each maneuver may take effect: the one(s) containing its date
     allowed = {}
     for idx, m in enumerate(case["mans"]):
@@ -646,7 +775,7 @@ def check_impulse(case):
     for cl in clusters:
         ids = sorted({i for j in cl for i in allowed[j]})
         tot = sum(res[j] for j in cl)
-        theta = sum(theta_of(ys, j, h) for j in cl)
+        theta = sum(theta_of(ys, j, h, mu) for j in cl)
         want = np.zeros(3)
         mags = []
         for i in ids:
@@ -692,7 +821,10 @@ def check_impulse(case):
         dr = float(np.linalg.norm(tot[:3]))
         if dr > total * h * len(cl) + 1e-12 * float(np.linalg.norm(ys[cl[0]][:3])):
             raise Violation("impulse-position-jump", f"position jumps by {dr:.6g} m in steps {cl}")
-    cls = el_classes(el) + [f"mans:{len(mans)}"]
+    cls = el_classes(el) + [f"mans:{len(mans)}"] + spelling_classes(sp)
+    day = 86400 * 10**6
+    if case["t0"] // day != (case["t0"] + n * h_us) // day:
+        cls.append("crosses-utc-midnight")
     for m in case["mans"]:
         r = m["t"] % h_us
         cls.append("on-grid" if r == 0 else "1us-off-grid" if r in (1, h_us - 1) else "off-grid")
@@ -874,19 +1006,24 @@ def continuous_case(draw):
         dur = max(1, round(dur / h_us)) * h_us
     tail = draw(st.integers(2, 3))
     n = -(-(start + dur) // h_us) + tail
-    return dict(el=el, h_us=h_us, n=n, start=start, dur=dur, t0=draw(go.uniform_int(0, 5 * 365 * 86400 * 10**6)),
+    return dict(el=el, h_us=h_us, n=n, start=start, dur=dur, t0=draw(epochs(n * h_us)),
                 dv=draw(vec3(-3.0, 2.0)), tag=draw(st.sampled_from(TAGS)), mode=draw(st.sampled_from(["dv", "accel"])),
-                date_pos=draw(st.sampled_from(["start", "stop", "median"])))
+                date_pos=draw(st.sampled_from(["start", "stop", "median"])),
+                sp=draw(spellings(1, methods=("rk4",), bodies=("Earth", "Earth", "Earth", "Moon") if not long_burn else ("Earth",))))
 
 
 def check_continuous(case):
     from beyond.dates import timedelta
     from beyond.orbits.man import ContinuousMan
 
-    mu = mu_earth()
+    sp = case.get("sp") or {}
+    body_name = sp.get("body", "Earth")
+    mu = mu_of_body(body_name)
     el = case["el"]
+    if body_name != "Earth":
+        el = dict(el, a=el["a"] * go.RADIUS[body_name] / go.RADIUS["Earth"])
     c0 = cart(el, mu)
-    d0 = mkdate(case["t0"])
+    d0 = epoch_of(case, sp)
     h_us, n = case["h_us"], case["n"]
     h = h_us / 1e6
     start, dur = case["start"], case["dur"]
@@ -901,20 +1038,36 @@ def check_continuous(case):
         dvv = dvv * cap / float(np.linalg.norm(dvv))
     acc = dvv / secs
     shift = {"start": 0, "median": dur // 2, "stop": dur}[case["date_pos"]]
-    date = d0 + timedelta(microseconds=start + shift)
+    man_scale = (sp.get("man_scales") or [None])[0]
+    date = relabel(d0 + timedelta(microseconds=start + shift), man_scale)
     duration = timedelta(microseconds=dur)
+    how = (sp.get("dv_as") or ["list"])[0]
     if case["mode"] == "dv":
-        man = ContinuousMan(date, duration, dv=list(dvv), frame=case["tag"], date_pos=case["date_pos"])
+        obj, numbers = dv_spelling(dvv, how)
+        dvv = np.array(numbers, float)
+        acc = dvv / secs
+        man = ContinuousMan(date, duration, dv=obj, frame=case["tag"], date_pos=case["date_pos"])
     else:
-        man = ContinuousMan(date, duration, accel=list(acc), frame=case["tag"], date_pos=case["date_pos"])
-    if abs((man.start - d0).total_seconds() - start / 1e6) > 2e-6 or abs((man.stop - d0).total_seconds() - stop / 1e6) > 2e-6:
+        obj, numbers = dv_spelling(acc, how if how != "int" else "list")
+        acc = np.array(numbers, float)
+        dvv = acc * secs
+        man = ContinuousMan(date, duration, accel=obj, frame=case["tag"], date_pos=case["date_pos"])
+    if isinstance(obj, np.ndarray):
+        obj += 1.0                      # the caller's array is not kept by reference
+    # (a TDB second is not a TT second: up to 3.3e-10 of the duration when the burn is dated in TDB)
+    wtol = 2e-6 + (1e-9 * secs if man_scale == "TDB" else 0.0)
+    if abs((man.start - d0).total_seconds() - start / 1e6) > wtol or abs((man.stop - d0).total_seconds() - stop / 1e6) > wtol:
         raise Violation("cont-window", f"burn window [{(man.start - d0).total_seconds()}, {(man.stop - d0).total_seconds()}) s, "
                         f"expected [{start / 1e6}, {stop / 1e6})")
     frame = case["tag"].upper() if case["tag"] else None
     amag = float(np.linalg.norm(acc))
-    ys = run_library(c0, d0, h_us, n, [man])
+    # numbers handed over in single precision are divided / multiplied by the duration in single precision
+    REL0 = 1e-6 if how == "f32" else 1e-9
+    ys = run_library(c0, d0, h_us, n, [man], sp)
     res = defects(ys, h, mu)
     on_grid = start % h_us == 0 and stop % h_us == 0
+    if man_scale in ("UT1", "TDB"):
+        on_grid = False                 # such a label is kept to the microsecond only: the edges leave the grid
     worst = 0.0
     vnorm = float(np.linalg.norm(ys[0][3:]))
     floor = 1e-13 * vnorm
@@ -935,7 +1088,7 @@ def check_continuous(case):
         dr, dv = float(np.linalg.norm(res[j][:3])), float(np.linalg.norm(res[j][3:]))
         # angle swept by the local axes during the step: orbital motion + the turn the thrust itself gives the velocity
         # (an out-of-plane or transverse push turns the axes at accel / transverse velocity)
-        theta = theta_of(ys, j, h) + amag * h / min(vperp(ys[j]), vperp(ys[j + 1]))
+        theta = theta_of(ys, j, h, mu) + amag * h / min(vperp(ys[j]), vperp(ys[j + 1]))
         if hi < start or lo > stop:
             tr, tv = quiet_tol(ys[j + 1])
             worst = max(worst, dr / tr, dv / tv)
@@ -949,7 +1102,7 @@ def check_continuous(case):
             interior += 1
             if sampled is not None and j not in sampled:
                 want_dv = amag * h
-                tol = want_dv * (3 * theta**2 + 1e-9) + floor
+                tol = want_dv * (3 * theta**2 + REL0) + floor
                 worst = max(worst, abs(dv - want_dv) / tol)
                 if abs(dv - want_dv) > tol:
                     raise Violation("burn-full-step", f"step {j} -> {j + 1} lies inside the burn: velocity gained {dv!r} m/s, "
@@ -959,7 +1112,7 @@ def check_continuous(case):
             arc, err = ig.burn(ys[j], h, mu, acc, frame)
             want = arc - tb.propagate_uv(ys[j], h, mu)
             d = float(np.linalg.norm(res[j][3:] - want[3:]))
-            tol = amag * h * (theta**3 + 1e-9) + floor + 10 * err
+            tol = amag * h * (theta**3 + REL0) + floor + 10 * err
             worst = max(worst, d / tol)
             if d > tol:
                 raise Violation("burn-full-step",
@@ -967,7 +1120,7 @@ def check_continuous(case):
                                 f"{acc.tolist()} m/s^2 along {case['tag']!r} axes for {h} s gives {want[3:].tolist()} "
                                 f"(diff {d:.6g}, tol {tol:.3g})", step=j)
             d = float(np.linalg.norm(res[j][:3] - want[:3]))
-            tol = amag * h * h * (theta**3 + 1e-9) + 1e-13 * float(np.linalg.norm(ys[j][:3])) + 10 * err * h
+            tol = amag * h * h * (theta**3 + REL0) + 1e-13 * float(np.linalg.norm(ys[j][:3])) + 10 * err * h
             worst = max(worst, d / tol)
             if d > tol:
                 raise Violation("burn-full-step-position", f"step {j} -> {j + 1}: position gained {res[j][:3].tolist()} m, "
@@ -979,7 +1132,7 @@ def check_continuous(case):
     total = amag * secs
     want_edges = amag * (secs - interior * h)
     if on_grid:
-        tol = amag * h * 6 * thmax**2 + amag * h * 1e-6 + n * floor
+        tol = amag * h * 6 * thmax**2 + amag * h * 1e-6 + amag * secs * REL0 + n * floor
     else:
         tol = amag * h + n * floor
     d = abs(delivered_edges - want_edges)
@@ -997,13 +1150,13 @@ def check_continuous(case):
     t_end = n * h
     ref, err = ig.propagate_with_burns(c0, t_end, mu, burns=[(start / 1e6, stop / 1e6, acc, frame)],
                                        hmax=1.0 if sampled is None else 30.0)
-    free_lib = np.asarray(c0, float)
+    free_lib = np.asarray(ys[0], float)
     for _ in range(n):
         free_lib = np.asarray(ig.rk4_step(free_lib, h, mu))  # the library's own maneuver-free twin (bit for bit)
     free_ref = tb.propagate_uv(c0, t_end, mu)
     D = (ys[-1] - free_lib) - (ref - free_ref)
     span = t_end - start / 1e6
-    sweep = sum(theta_of(ys, j, h) for j in range(n) if (j + 1) * h_us > start) + total / vmin
+    sweep = sum(theta_of(ys, j, h, mu) for j in range(n) if (j + 1) * h_us > start) + total / vmin
     # quadrature of the edges (a velocity error up to |accel| step, carried for `sweep` radians), plus the
     # part of the integrator's truncation error that does not cancel between the twins
     if on_grid and sampled is None:
@@ -1033,6 +1186,10 @@ def check_continuous(case):
         cls.append("burn-hours")
     if capped:
         cls.append("dv-capped")
+    cls += spelling_classes(sp)
+    day = 86400 * 10**6
+    if case["t0"] // day != (case["t0"] + n * h_us) // day:
+        cls.append("crosses-utc-midnight")
     return dict(nt=(not on_grid) or el["e"] > 1, cls=cls, ratio=worst,
                 parts=dict(sharp=worst, quadrature=quad, end=endfrac))
 
